@@ -935,6 +935,58 @@ class Interp:
                 return [('decint', val)]
         return [('lit', '?')] if False else [('opaque', repr(val))]
 
+    def printf(self, fmt, vals, node=None):
+        """'%05X %s' % vals  -> AStr (the conversions d, i, s, x, X with optional 0-padding width)"""
+        import re as _re
+        pieces = []
+        pos = 0
+        k = 0
+        for m in _re.finditer(r'%(?:(0?)(\d*)([dixXs])|(%))', fmt):
+            if m.start() > pos:
+                pieces.append(('lit', fmt[pos:m.start()]))
+            pos = m.end()
+            if m.group(4):
+                pieces.append(('lit', '%')); continue
+            if k >= len(vals):
+                raise PyError('TypeError', getattr(node, 'lineno', 0))
+            v = vals[k]; k += 1
+            conv = m.group(3)
+            if conv == 's':
+                pieces.extend(self.format(v, '') if not isinstance(v, AStr) else v.pieces)
+            elif conv in 'di':
+                pieces.extend(self.format(v, (m.group(1) + m.group(2) + 'd') if m.group(2) else ''))
+            else:
+                pieces.extend(self.format(v, m.group(1) + m.group(2) + conv))
+        if '%' in _re.sub(r'%(?:0?\d*[dixXs]|%)', '', fmt):
+            raise Unknown(f"printf conversion in {fmt!r}")
+        if k != len(vals):
+            raise PyError('TypeError', getattr(node, 'lineno', 0))
+        if pos < len(fmt):
+            pieces.append(('lit', fmt[pos:]))
+        return AStr(pieces)
+
+    def str_format(self, fmt, args, node=None):
+        import string as _string
+        pieces = []
+        auto = 0
+        for lit, field, spec, conv in _string.Formatter().parse(fmt):
+            if lit:
+                pieces.append(('lit', lit))
+            if field is None:
+                continue
+            if conv or (spec and ('{' in spec)):
+                raise Unknown(f"format field {field!r}!{conv}:{spec}")
+            if field == '':
+                idx = auto; auto += 1
+            elif field.isdigit():
+                idx = int(field)
+            else:
+                raise Unknown(f"format field {field!r}")
+            if idx >= len(args):
+                raise PyError('IndexError', getattr(node, 'lineno', 0))
+            pieces.extend(self.format(args[idx], spec or ''))
+        return AStr(pieces)
+
     def compare(self, op, a, b, node=None):
         if isinstance(op, (ast.In, ast.NotIn)) and isinstance(b, ADict):
             r = self.key_of(a, node) in b.items
@@ -1054,6 +1106,8 @@ class Interp:
         return {ast.Eq: _op.eq, ast.NotEq: _op.ne, ast.Lt: _op.lt, ast.LtE: _op.le, ast.Gt: _op.gt, ast.GtE: _op.ge}[type(op)](x, y)
 
     def binop(self, op, a, b):
+        if isinstance(op, ast.Mod) and isinstance(a, AStr) and a.literal() is not None:
+            return self.printf(a.literal(), list(b) if isinstance(b, tuple) else [b])
         if isinstance(a, AOpaque) or isinstance(b, AOpaque):
             return AOpaque('binop')
         if isinstance(a, bool): a = AInt(int(a))
@@ -1231,6 +1285,37 @@ class Interp:
                             return AInt(None, None)
                         vec.extend(list(bi) + [0] * (8 - len(bi)))
                     return AInt(None, vec)
+            if base == 16 and len(s.pieces) > 1 and all(p[0] in ('hexint', 'lit', 'hexbytes') for p in s.pieces):
+                # hex digits written side by side: every piece must have a known number of digits (zero-padded to a width its value fits, a single
+                # digit for a value below 16, a literal, whole bytes); the digits are then concatenated most significant first
+                vec = []
+                for p in reversed(s.pieces):
+                    if p[0] == 'lit':
+                        try:
+                            val = int(p[1], 16)
+                        except ValueError:
+                            return AOpaque('int()')
+                        nd = len(p[1])
+                        bits = [(val >> k_) & 1 for k_ in range(4 * nd)]
+                    elif p[0] == 'hexbytes':
+                        bits = []
+                        for it in reversed(p[1]):
+                            bi = self.byte_to_int(it).vec()
+                            if bi is None:
+                                return AInt(None, None)
+                            bits.extend(list(bi) + [0] * (8 - len(bi)))
+                    else:
+                        x, width = p[1], (p[2] if len(p) > 2 else 0)
+                        xv = x.vec()
+                        if xv is None:
+                            return AInt(None, None)
+                        xv = B.trim(xv)
+                        nd = width if width else 1
+                        if len(xv) > 4 * nd:
+                            return AOpaque('int() of hex pieces of unknown width')
+                        bits = list(xv) + [0] * (4 * nd - len(xv))
+                    vec.extend(bits)
+                return AInt(None, vec)
         return AOpaque('int()')
 
     # ------------------------------------------------------------ calls
@@ -1242,6 +1327,15 @@ class Interp:
             if r is not NotImplemented:
                 return r
         f = e.func
+        if isinstance(f, ast.Name) and f.id == 'map' and 'map' not in env and len(e.args) == 2 and not e.keywords and not isinstance(e.args[1], ast.Starred):
+            # map(F, xs): F is applied as written to each element (F itself need not be a value the interpreter models, e.g. '{:02X}'.format)
+            out_ = []
+            for el in self.iterate(self.expr(e.args[1], env), e):
+                env2 = dict(env); env2['__map_item'] = el
+                c_ = ast.Call(func=e.args[0], args=[ast.Name(id='__map_item', ctx=ast.Load())], keywords=[])
+                ast.copy_location(c_, e); ast.fix_missing_locations(c_)
+                out_.append(self.expr(c_, env2))
+            return AList(out_)
         args = []
         for a in e.args:
             if isinstance(a, ast.Starred):
@@ -1392,6 +1486,12 @@ class Interp:
                     return ABytes([self.int_to_byte(x) for x in a.items])
                 if isinstance(a, ABytes):
                     return ABytes(a.items)
+                if isinstance(a, (tuple, list)):
+                    return ABytes([self.int_to_byte(x) for x in a])
+                if isinstance(a, AInt) and a.v is not None and 0 <= a.v <= 4096 and len(args) == 1:
+                    return ABytes([('c', 0)] * a.v)
+                if isinstance(a, LazyGen) or isinstance(a, range):
+                    return ABytes([self.int_to_byte(x) for x in self.iterate(a, e)])
                 raise Unknown(f"bytes() argument at line {e.lineno}")
             if n == 'bytearray':
                 return ABytes(args[0].items, True) if args else ABytes([], True)
@@ -1728,6 +1828,8 @@ class Interp:
             if isinstance(o, (ABytes, AList, ADict)) and m in ('reverse', 'insert', 'pop', 'remove', 'sort', 'clear', 'update', 'popitem', 'extend', 'append', 'add', 'discard', 'setdefault', '__setitem__', '__delitem__'):
                 raise Unknown(f"{type(o).__name__}.{m}() with these arguments is not modelled (line {e.lineno})")
             if isinstance(o, AStr):
+                if m == 'format' and o.literal() is not None and not kw:
+                    return self.str_format(o.literal(), args, e)
                 if m in ('upper', 'lower'):
                     return AStr([(('lit', getattr(p[1], m)()) if p[0] == 'lit' else p) for p in o.pieces])
                 if m == 'encode':
